@@ -27,15 +27,19 @@ if "def" in ast.unparse(ast.parse("𝕕𝕖𝕗 = 1")):
                 continue
             for field in node._fields:
                 v = getattr(node, field, None)
-                if (
-                    type(v) is str
-                    and keyword.iskeyword(v)
-                    and v not in ("True", "False", "None")
-                ):
-                    # We refer to this transformation as "keyword mincing"
-                    # in documentation.
-                    setattr(node, field, chr(ord(v[0]) - ord("a") + ord("𝐚")) + v[1:])
+                if type(v) is str:
+                    setattr(node, field, mince(v))
+                elif type(v) is list and all(type(x) is str for x in v):
+                    # E.g., `Global.names` or `MatchClass.kwd_attrs`.
+                    setattr(node, field, [mince(x) for x in v])
         return true_unparse(ast_obj)
+
+    def mince(v):
+        # We refer to this transformation as "keyword mincing" in
+        # documentation.
+        if keyword.iskeyword(v) and v not in ("True", "False", "None"):
+            return chr(ord(v[0]) - ord("a") + ord("𝐚")) + v[1:]
+        return v
 
     ast.unparse = rewriting_unparse
 
